@@ -404,6 +404,11 @@ type flagDef struct {
 func checkFlagDefaults(p *core.Program, r *core.Report, inits map[string]*core.InitVal) {
 	defs := map[string]flagDef{}
 	setName := func(v ssa.Value) string {
+		if c, ok := v.(*ssa.Call); ok && core.CallName(c) == "flag.NewFlagSet" {
+			// the flag set is still a local of the init code that creates it
+			s, _ := core.ConstString(c.Call.Args[0])
+			return s
+		}
 		if ld, ok := v.(*ssa.UnOp); ok && ld.Op == token.MUL {
 			if g, ok := ld.X.(*ssa.Global); ok {
 				if iv := inits[g.Name()]; iv != nil && iv.Call != nil && core.CallName(iv.Call) == "flag.NewFlagSet" {
@@ -1237,6 +1242,62 @@ func stdoutCall(c ssa.CallInstruction) bool {
 	return false
 }
 
+// oneLineWrite: the call writes exactly one line (text without a line break, then one "\n"), as far
+// as its constant parts say: Println/Fprintln; Printf/Fprintf with a format that has its only "\n" at
+// the end; WriteString/Write of such a Sprintf, of Sprintln, of a constant line, or of x + "\n".
+func oneLineWrite(c ssa.CallInstruction) (bool, string) {
+	oneNL := func(f string) bool { return strings.HasSuffix(f, "\n") && strings.Count(f, "\n") == 1 }
+	args := c.Common().Args
+	name := core.CallName(c)
+	switch name {
+	case "fmt.Println", "fmt.Fprintln":
+		return true, ""
+	case "fmt.Printf", "fmt.Fprintf":
+		i := 0
+		if name == "fmt.Fprintf" {
+			i = 1
+		}
+		if f, ok := core.ConstString(args[i]); ok {
+			return oneNL(f), fmt.Sprintf("format %q", f)
+		}
+		return false, "format is not a constant"
+	}
+	if name == "io.WriteString" || strings.HasPrefix(name, "(*os.File).Write") {
+		var lineOf func(v ssa.Value, d int) (bool, string)
+		lineOf = func(v ssa.Value, d int) (bool, string) {
+			v = core.StripType(v)
+			if cv, ok := v.(*ssa.Convert); ok && d < 3 { // []byte(s)
+				return lineOf(cv.X, d+1)
+			}
+			if f, ok := core.ConstString(v); ok {
+				return oneNL(f), fmt.Sprintf("constant %q", f)
+			}
+			switch x := v.(type) {
+			case *ssa.Call:
+				switch core.CallName(x) {
+				case "fmt.Sprintln":
+					return true, ""
+				case "fmt.Sprintf":
+					if f, ok := core.ConstString(x.Call.Args[0]); ok {
+						return oneNL(f), fmt.Sprintf("format %q", f)
+					}
+				}
+			case *ssa.BinOp:
+				if x.Op == token.ADD {
+					if f, ok := core.ConstString(x.Y); ok && f == "\n" {
+						if g, isC := core.ConstString(x.X); !isC || !strings.Contains(g, "\n") {
+							return true, ""
+						}
+					}
+				}
+			}
+			return false, "written text is " + core.Describe(v)
+		}
+		return lineOf(args[len(args)-1], 0)
+	}
+	return false, "unrecognised stdout call " + name
+}
+
 func isOsFile(v ssa.Value, which string) bool {
 	v = core.StripType(v)
 	if ld, ok := v.(*ssa.UnOp); ok && ld.Op == token.MUL {
@@ -1496,19 +1557,7 @@ func checkMainCFG(p *core.Program, r *core.Report) {
 	// each stdout write in main is one line
 	for _, cs := range stdoutIn {
 		for _, c := range cs {
-			okLine := false
-			why := ""
-			switch core.CallName(c) {
-			case "fmt.Println":
-				okLine = true
-			case "fmt.Printf":
-				if f, ok := core.ConstString(c.Common().Args[0]); ok {
-					okLine = strings.HasSuffix(f, "\n") && strings.Count(f, "\n") == 1
-					why = fmt.Sprintf("format %q", f)
-				}
-			default:
-				why = "unrecognised stdout call " + core.CallName(c)
-			}
+			okLine, why := oneLineWrite(c)
 			r.Check(okLine, "R17.5", name, "stdout write produces exactly one line", p.InstrPos(c), why)
 		}
 	}
